@@ -156,13 +156,19 @@ def wsEvOfJson (j : Json) : Except String Ws.WsEv := do
     | "ping" => pure (.ping (← bytesOfJson a[1]))
     | "pong" => pure (.pong (← bytesOfJson a[1]))
     | "close" => pure (.close (← a[1].getNat?))
+    | "failed" => pure (.failed (← a[1].getNat?))
     | _ => throw s!"ws ev {k}"
   else throw "ws ev"
 
 /-- {"init":{version, headers, max_len, server_name_ok, ping, token, ext_accepts}, "ops":[{"send":…}|{"in":"data","events":[…]}|{"in":"streamClosed"}]} -/
-def wsRun : Handler := fun j => do
+def wsRunWith (leanToken : Option (Bytes → Bytes)) : Handler := fun j => do
   let init ← j.getObjVal? "init"
-  let tokenB ← getBytes init "token"
+  let tokenB ← match leanToken with
+    | some _ => pure []
+    | none => getBytes init "token"
+  let tokenF : Bytes → Bytes := match leanToken with
+    | some f => f
+    | none => fun _ => tokenB
   let ext := (getOpt init "ext_accepts").bind (fun v => (bytesOfJson v).toOption)
   let r := Ws.onRequest (← getNat init "max_len") (← getStr init "version") (← headersOfJson (← init.getObjVal? "headers"))
     (← getBool init "server_name_ok") (← getBool init "ping")
@@ -176,7 +182,7 @@ def wsRun : Handler := fun j => do
       match op.getObjVal? "send" with
       | .ok m =>
         let msg ← wsMsgOfJson m
-        let (s', evs, err) := Ws.appSend (fun _ => tokenB) ext s msg
+        let (s', evs, err) := Ws.appSend tokenF ext s msg
         s := s'
         outs := outs.push (Json.mkObj [("puts", Json.arr #[]), ("events", Json.arr (evs.map wsEvJson).toArray), ("error", optJson (fun e => Json.str (errName e)) err),
           ("state", wsStName s'.st), ("closed", s'.closed)])
@@ -190,6 +196,9 @@ def wsRun : Handler := fun j => do
         outs := outs.push (Json.mkObj [("puts", Json.arr (puts.map wsPutJson).toArray), ("events", Json.arr (evs.map wsEvJson).toArray),
           ("error", optJson (fun e => Json.str (errName e)) err), ("state", wsStName s'.st), ("closed", s'.closed)])
     pure (Json.arr outs)
+
+/-- the accept token is a library value supplied by the harness (`init.token`) -/
+def wsRun : Handler := wsRunWith none
 
 def handlers : List (String × Handler) := [("stream.http", httpRun), ("stream.http_view", httpView), ("stream.ws", wsRun)]
 
